@@ -333,6 +333,9 @@ def run(check, repo, tier):
     for rid, floor in (("R2", 100), ("R3", 20), ("R5", 4)):
         check.floor(not (counts.get(rid, 0) < floor), f"C20.{rid}: only {counts.get(rid, 0)} obligations decided (floor {floor})")
     n4 = extrusion_rule(check, cr.program) + registration(check, cr.program)
+    check.rule("R8", "ParamsDict (the record threaded through the hooks and remembered) behaves as the case-insensitive dict the analysis uses in its place")
+    from . import paramsdict
+    paramsdict.contract(check, cr.program, "R8")
     # the running total lives in the remembered parameters: only motion / offset commands may touch them (rule R7 of C07)
     check.rule("R7", "only commands that deliver a motion / offset statement modify the remembered parameters (the extrusion total restarts only with an E reset)")
     from . import c07
